@@ -550,3 +550,26 @@ def early_binding_rule(run, R="COND"):
                       "%s: the reporting look-up is preceded by a non-reporting one and the function asks for pending #if blocks" % f.id,
                       "%s fails with `unknown ...` for a name it cannot find while `#if` blocks are still unresolved: `#if A { #bankdef b1 {..} }` followed by `#bank b1` is rejected although the selected arm declares the bank" % f.id)
     run.floor(R, "reporting look-ups in the collection passes", n, 1)
+
+
+def define_value_source(run):
+    """a number given with `-d` is the value its text has in the source language - width of a hexadecimal literal included: the
+    only producer of a big integer in `parse_define_arg` (and the driver helpers it calls) is the literal parser of the language
+    (`excerpt_as_bigint`); the value is never built from a machine word, which carries no width"""
+    pd = run.anchor(R, "driver::parse_define_arg")
+    if pd is None:
+        return
+    fam = [pd] + [h for h in (run.prog.fn(t.get("resolved") or "") for _, t in pd.calls() if t.get("resolved_local")) if h is not None and h.id.startswith("driver::")]
+    fam += [g for g in run.prog.real_fns() if g.kind == "Closure" and (g.raw.get("root") or "") in {f.id for f in fam}]
+    bad, lit = [], 0
+    for f in fam:
+        for bi, t in f.calls():
+            c = t.get("resolved") or t.get("callee") or ""
+            cf = t.get("callee_full") or c
+            if c.endswith("excerpt::excerpt_as_bigint"):
+                lit += 1
+            elif re.search(r"util::bigint::BigInt::(new|from_bytes_be|new_from_str)$", c) or re.search(r"<util::bigint::BigInt as (std::|core::)?convert::From<", c) \
+                    or (c.endswith("From::from") and "util::bigint::BigInt" in cf) or re.search(r"Into<util::bigint::BigInt>|into.*util::bigint::BigInt", cf):
+                bad.append("%s at %s" % (c.rsplit("::", 2)[-2] + "::" + c.rsplit("::", 1)[-1], f.loc(t["span"])))
+    run.check(lit >= 1 and not bad, R, R + "|define|value-by-literal-parser", pd.loc(), "the number of a -d definition is produced by the language's literal parser only",
+              "parse_define_arg builds the value of a definition by other means than the language's literal parser (%s): the value loses the width its text has (`-dKEY=0x00ff` is 16 bits wide in the source language)" % (", ".join(bad) or "literal parser call not found"))
